@@ -75,6 +75,10 @@ def build_plan(choice: Choice, tier):
     p["open_fault_actor"] = (1 + d(n_children, "open.fault.actor")) if d(6, "open.fault") == 5 else None
     p["scripts"] = {str(k): v for k, v in sorted(scripts.items())}
     p["stickiness"] = [0.0, 0.3, 0.7, 0.9][d(4, "stickiness")]
+    # MapAccessFile: mapping given as a dict, or loaded from a tsv index file (str or int keys)
+    p["map_index"] = ["dict", "dict", "file-str", "file-int"][d(4, "map.index")]
+    # line files: offsets built by the class, or supplied as a list / an index file
+    p["line_index"] = ["built", "built", "list", "file"][d(4, "line.index")]
     return p
 
 
@@ -106,11 +110,14 @@ def execute(plan, choice, tmpdir, trace):
 
     st = {"it": None, "pos": 0}     # per-process iterator state: copied by fork together with the iterator itself
 
+    def mkey(i):
+        return (1000 + i) if plan.get("map_index") == "file-int" else f"k{i}"
+
     def do(obj, op):
         if op[0] == "get":
             if kind == "MapAccessFile":
                 i = op[1] % len(lines)
-                return ["get", i, obj[f"k{i}"]]
+                return ["get", i, obj[mkey(i)]]
             return ["get", op[1], obj[op[1]]]
         if op[0] == "slice":
             return ["slice", op[1], op[2], obj[op[1]:op[2]]]
@@ -175,12 +182,31 @@ def execute(plan, choice, tmpdir, trace):
         # actor 0 = the parent process of the property: opens the file, warms it up, forks children
         try:
             if kind == "MapAccessFile":
-                obj = files.MapAccessFile(path, {f"k{i}": o for i, o in enumerate(offsets)})
+                if plan.get("map_index", "dict") == "dict":
+                    obj = files.MapAccessFile(path, {mkey(i): o for i, o in enumerate(offsets)})
+                else:
+                    ip = os.path.join(tmpdir, "map.index")
+                    with open(ip, "w") as f:
+                        f.write("key\tfile_line_offset\n")
+                        for i, o in enumerate(offsets):
+                            f.write(f"{mkey(i)}\t{o}\n")
+                    obj = files.MapAccessFile(path, ip, int if plan["map_index"] == "file-int" else str)
+                if len(obj) != len(lines):
+                    raise AssertionError(f"MapAccessFile len {len(obj)} != {len(lines)}")
             else:
-                obj = getattr(files, kind)(path)
+                li = plan.get("line_index", "built")
+                if li == "list":
+                    obj = getattr(files, kind)(path, list(offsets))
+                elif li == "file":
+                    ip = os.path.join(tmpdir, "lines.index")
+                    with open(ip, "w") as f:
+                        f.write("".join(f"{o}\n" for o in offsets))
+                    obj = getattr(files, kind)(path, ip)
+                else:
+                    obj = getattr(files, kind)(path)
             obj.open()
             for i in plan["warm"]:
-                _ = obj[f"k{i}"] if kind == "MapAccessFile" else obj[i]
+                _ = obj[mkey(i)] if kind == "MapAccessFile" else obj[i]
             actor_main(Actor(0, chans, trace_file), obj)
         finally:
             os._exit(0)
